@@ -87,8 +87,10 @@ def hash_order_audit(F, fn):
         if nm in ("collect", "from_iter", "extend") and any(x in full for x in UNORDERED_TARGETS):
             chains_out.append((fn.blocks[bi]["line"], nm, full, True))
             continue
-        if nm in ("map", "filter", "filter_map", "flat_map", "cloned", "copied", "enumerate", "zip", "chain", "inspect", "peekable",
-                  "into_iter", "iter", "by_ref", "skip", "take", "rev", "size_hint"):
+        if nm in ("map", "filter", "filter_map", "flat_map", "flatten", "cloned", "copied", "enumerate", "zip", "chain", "inspect",
+                  "peekable", "fuse", "into_iter", "iter", "by_ref", "rev", "size_hint"):
+            # lazy adaptors: the verdict is the consumer's (a for loop or a consuming call); skip/take/step_by select by
+            # position and are not in this list
             continue
         chains_out.append((fn.blocks[bi]["line"], nm, full, False))
     return loops_out, chains_out
